@@ -511,6 +511,13 @@ func (b *BlockList) persist(s blockSnapshot) {
 		return
 	}
 
+	// The directory is otherwise created by the remote refresh, a second
+	// after start; a mutation completed before that must reach disk too.
+	if err := os.MkdirAll(b.cfg.BlockListDir, 0750); err != nil {
+		zlog.Warn("Blocklist persist failed: create directory", "dir", b.cfg.BlockListDir, "error", err.Error())
+		return
+	}
+
 	path := filepath.Join(b.cfg.BlockListDir, "local")
 	tmp, err := os.CreateTemp(b.cfg.BlockListDir, persistTempPrefix+"*")
 	if err != nil {
